@@ -44,7 +44,9 @@ Definition cov_ok (e efloor : Z) (rows : list drow) (p : param -> D) (cols : lis
   forallb (fun ja =>
     forallb (fun kb =>
       let rhs := if Nat.eqb (fst (fst ja)) (fst kb) then s2i else dzero in
-      dle (dabs (dsub (prod (snd ja) (snd kb)) rhs)) (dmul (dpow2 e) (dadd (mag (snd ja) (snd kb)) (dabs rhs))))
+      (* the last term is an absolute floor relative to the scale s2 of the identity: entries that are exactly zero in exact
+         arithmetic (e.g. between time steps that share no free unknown) come out of a float inverse as pure round-off *)
+      dle (dabs (dsub (prod (snd ja) (snd kb)) rhs)) (dadd (dmul (dpow2 e) (dadd (mag (snd ja) (snd kb)) (dabs rhs))) (dmul (dpow2 (-40)) (dabs s2i))))
       (combine (seq 0 (length cols)) cols))
     (combine (combine (seq 0 (length cols)) cols) Nm) &&
   dle (dabs (dsub (dmul dof s2i) ssr))
@@ -90,11 +92,13 @@ Definition cov_ok_g (e efloor : Z) (rows : list drow) (p : param -> D) (cols : l
   let NCN := mulm NC Nm (fun v => v) in
   let aNC := mulm (map (map dabs) Nm) (map (map dabs) Cm) (fun v => v) in
   let aNCN := mulm aNC (map (map dabs) Nm) (fun v => v) in
+  let nmax := fold_right dmax dzero (map dabs (concat Nm)) in
   (0 <? fst dof) &&
   forallb (fun rr =>
     forallb (fun vv =>
       let '(v, (m, n)) := vv in
       dle (dabs (dsub (dmul dof v) (dmul ssr n)))
-          (dadd (dmul (dpow2 e) (dadd (dmul dof m) (dmul ssr (dabs n)))) (dmul (dpow2 efloor) (dmul y2 (dabs n)))))
+          (dadd (dadd (dmul (dpow2 e) (dadd (dmul dof m) (dmul ssr (dabs n)))) (dmul (dpow2 efloor) (dmul y2 (dabs n))))
+                (dmul (dpow2 (-40)) (dmul ssr nmax))))   (* absolute floor at the scale of the identity, for entries with N_jk = 0 exactly *)
       (combine (fst rr) (combine (fst (snd rr)) (snd (snd rr)))))
     (combine NCN (combine aNCN Nm)).
